@@ -1,5 +1,5 @@
 /- L0 facts about OnBalanceVolume::reset (split from Lemmas/OnBalanceVolume.lean so that a change to one method only invalidates the facts about that method) -/
-import TaRs.Lemmas.OnBalanceVolume
+import TaRs.Lemmas.Core.OnBalanceVolume
 set_option linter.unusedSectionVars false
 namespace TaRs.Gen.OnBalanceVolume
 open TaRs TaRs.Rs
